@@ -116,11 +116,8 @@ Qed.
 Lemma plen_string_enc n rest : n < 2 ^ 24 -> plen_string (enc_packed n ++ rest) = Ok (n, rest).
 Proof. exact (plen_blob_enc n rest). Qed.
 
-Lemma plen_py_enc n rest : n < 255 -> plen_py (enc_packed n ++ rest) = Ok (n, rest).
-Proof.
-  intros H. unfold enc_packed, plen_py. replace (n <? 255) with true by (symmetry; apply N.ltb_lt; exact H).
-  cbn [app]. rewrite get_u1_cons. now rewrite b2n_n2b by lia.
-Qed.
+Lemma plen_py_enc n rest : n < 2 ^ 24 -> plen_py (enc_packed n ++ rest) = Ok (n, rest).
+Proof. exact (plen_blob_enc n rest). Qed.
 
 Lemma be16_roundtrip p : p < 65536 -> be_decode (be16 p) = p.
 Proof.
@@ -302,7 +299,7 @@ Proof.
   - (* Blob *) bind_inv H. rewrite read_uptoN_spec in H. pose proof (read_upto_suffix (N.to_nat n) b) as S. destruct (read_upto (N.to_nat n) b) as [p r''].
     destruct (N.eqb _ _); [|discriminate]. inversion H; subst. eapply suffix_trans; [exact S|eapply plen_blob_suffix; eauto].
   - (* Python *) unfold plen_py in H. bind_inv H. rewrite read_uptoN_spec in H. pose proof (read_upto_suffix (N.to_nat n) b) as S. destruct (read_upto (N.to_nat n) b) as [p r''].
-    inversion H; subst. eapply suffix_trans; [exact S|eapply get_u_suffix; eauto].
+    inversion H; subst. eapply suffix_trans; [exact S|eapply plen_blob_suffix; eauto].
   - (* Mailbox *) pose proof (read_upto_suffix 4 bs) as S. destruct (read_upto 4 bs) as [ip r]. destruct (Nat.eqb _ _); [|discriminate].
     bind_inv H. inversion H; subst. eapply suffix_trans; [eapply need_suffix; eauto|exact S].
   - (* Array *)
@@ -349,13 +346,10 @@ Print Assumptions decode_consumes_prefix.
 Definition full_statement (t : dtype) (v : value) (rest : bytes) :=
   has_type spec_limits t v -> decode 1 t (wire_encode 1 t v ++ rest) = Ok (v, rest).
 
-Example decode_wire_encode_refuted_python :
-  exists v rest, ~ full_statement TPython v rest.
-Proof.
-  exists (VBytes (repeat x41 255)), [x42]. unfold full_statement. intros H.
-  assert (Ht : has_type spec_limits TPython (VBytes (repeat x41 255))) by (vm_compute; reflexivity).
-  specialize (H Ht). vm_compute in H. discriminate H.
-Qed.
+(* PYTHON of 255 bytes and more: decodes exactly (the reader takes the packed length since the repair fixed: C03-b) *)
+Example decode_long_python :
+  decode 1 TPython (wire_encode 1 TPython (VBytes (repeat x41 300)) ++ [x42]) = Ok (VBytes (repeat x41 300), [x42]).
+Proof. apply decode_wire_encode_partial. vm_compute. reflexivity. Qed.
 Example decode_wire_encode_refuted_array :
   exists v rest, ~ full_statement (TArray (TUInt 1) None) v rest.
 Proof.
